@@ -65,6 +65,10 @@ CLAIMED = {
    text="Stage-wise refinement: one judged combinator (merge, concat, zip, combine_latest, amb, sequence_equal, take_until, skip_until, sample, flat_map with cold and hot overlapping inner sources) with 1..4 inputs, each a scripted hot / cold / subject source or creation function optionally behind other operators, probes on every input edge (and on every inner observable of flat_map) and on the output edge, driven in generated sequential interleavings. The operator's reference model is evaluated on the recorded input histories (global arrival order, subscription instants) and must allow the recorded output; may-sets where the statement is silent. utils::ready_set_go has its own family. switch_on_next is exercised, not judged.",
    technique='deterministic simulation (single driver task): generated arrival orders of several sources; per-operator executable reference models on recorded edge histories',
    note="Reference models in harness/src/c03.rs (about 300 lines); the probe stage is written like the crate's own map. Sampling of scripts x interleavings."),
+ 'C04': dict(level='fault_enumeration', design='5.4',
+   text="Travel family: generated pipelines of non-handler operators (unary operators, merge / zip / concat / combine_latest / sequence_equal siblings, take_until / skip_until / sample with the faulted source on the source side, flat_map with cold inners) over hot / subject / cold sources; the error fault with a unique payload is placed at EVERY position of the faulted source's script (enumerated inside each case) and each variant is compared with the fault-free run cut at the same position: same events before, then the very same payload exactly once as the last event. Handler family: retry(0..4), retry_when (4 predicates), on_error_resume_next (5 resume functions), materialize, materialize+dematerialize over a hot source whose k-th subscription has its own script, against reference models including the source-subscription count and 'the failed attempt is unsubscribed before the next one starts'.",
+   technique='deterministic simulation (single driver task): error fault enumerated at every script position, differential + reference-model oracles',
+   note="Sampling of pipelines and scripts; inside a case the fault positions are enumerated completely. retry(n) convention as named in the property's anchors."),
  # -- more claimed
 }
 NA = {
